@@ -1,0 +1,19 @@
+//go:build verif
+
+// This file is compiled only with `-tags verif`. It re-exports a few
+// package-private routines so that the verification harness under /verif can
+// drive them in isolation. It adds no behaviour and modifies no existing code.
+
+package saltpack
+
+import "io"
+
+// VerifCsprngUint32n exposes csprngUint32n.
+func VerifCsprngUint32n(csprng io.Reader, n uint32) (uint32, error) {
+	return csprngUint32n(csprng, n)
+}
+
+// VerifCsprngShuffle exposes csprngShuffle.
+func VerifCsprngShuffle(csprng io.Reader, n int, swap func(i, j int)) error {
+	return csprngShuffle(csprng, n, swap)
+}
